@@ -24,7 +24,45 @@ from core import f2b, b2f, fl
 from c03c04_common import CLOUD_KINDS, MODEL_NAMES, StubModel, build_model, cloud, model_sample
 
 DIVISORS = [d for d in range(1, 61) if 360 % d == 0]
+# steps that divide 360 exactly without being whole numbers (all exactly representable doubles)
+NONINT_DIVISORS = [7.5, 22.5, 2.5, 1.5, 4.5, 11.25, 3.75, 1.25]
+DEFAULT_DEG_STEP = 5  # documented public default ("Directional step in degrees. Defaults to 5.")
 ENTRY = "DirectSamplingContour._compute"
+
+
+def deg_object(case):
+    """the object handed over as deg_step (docstring type: float)"""
+    t = case.get("deg_type", "int")
+    d = case["deg"]
+    if t == "float":
+        return float(d)
+    if t == "np.int64":
+        return np.int64(d)
+    if t == "np.float64":
+        return np.float64(d)
+    return d
+
+
+def n_directions(deg):
+    return int(round(360 / deg))
+
+
+def is_whole(deg):
+    return float(deg) == int(deg)
+
+
+def with_layout(sample, layout):
+    """the same numbers in another memory layout / dtype"""
+    if layout == "F":
+        return np.asfortranarray(sample)
+    if layout == "strided":
+        wide = np.full((len(sample), 5), -12345.678, dtype=sample.dtype)
+        wide[:, 1] = sample[:, 0]
+        wide[:, 3] = sample[:, 1]
+        return wide[:, 1:4:2]
+    if layout == "float32":
+        return sample.astype(np.float32)
+    return sample
 
 
 # ---------------------------------------------------------------------------
@@ -33,30 +71,34 @@ ENTRY = "DirectSamplingContour._compute"
 
 def make_sample(case):
     if "sample" in case:
-        return np.array(case["sample"], dtype=float).reshape(-1, 2)
-    if case["src"] == "model":
-        return model_sample(case["model"], case["pseed"], case["n"], case["sseed"])
-    return cloud(case["cloud"], case["n"], case["sseed"])
+        s = np.array(case["sample"], dtype=float).reshape(-1, 2)
+    elif case["src"] == "model":
+        s = model_sample(case["model"], case["pseed"], case["n"], case["sseed"])
+    else:
+        s = cloud(case["cloud"], case["n"], case["sseed"])
+    return with_layout(s, case.get("layout", "C"))
 
 
 def run_impl(case):
     """returns dict(coords, sample, n_attr, drawn) or dict(err=...)"""
     from virocon import DirectSamplingContour
 
-    alpha, deg = case["alpha"], case["deg"]
+    alpha = case["alpha"]
+    dkw = {} if case.get("deg_type") == "default" else {"deg_step": deg_object(case)}
     try:
         with warnings.catch_warnings():
             warnings.simplefilter("ignore")
             if case.get("supplied", True):
                 sample = make_sample(case)
                 model = build_model(case["model"], case["pseed"]) if case["src"] == "model" and case.get("real_model") else StubModel()
-                c = DirectSamplingContour(model, alpha, deg_step=deg, sample=sample.copy())
+                # same layout / dtype as `sample`, but its own memory: an in-place change is then visible
+                c = DirectSamplingContour(model, alpha, sample=with_layout(np.array(sample), case.get("layout", "C")), **dkw)
                 drawn = None
             else:
                 model = build_model(case["model"], case["pseed"], recording=True)
                 np.random.seed(case["sseed"] % (2**32))
                 kw = {} if case.get("n_arg") is None else {"n": case["n_arg"]}
-                c = DirectSamplingContour(model, alpha, deg_step=deg, **kw)
+                c = DirectSamplingContour(model, alpha, **dkw, **kw)
                 sample = None
                 drawn = [(n, s) for n, s in model.rec_draw]
             coords = np.array(c.coordinates, dtype=float)
@@ -120,7 +162,7 @@ def compare(case, impl, model, sample):
     # the model's own direction grid and quantiles against numpy
     rad_step = case["deg"] * np.pi / 180
     angles = np.arange(0.5 * np.pi + 2 * rad_step, -1.5 * np.pi + rad_step, -1 * rad_step)
-    nd = int(round(360 / case["deg"]))
+    nd = n_directions(case["deg"])
     angles = angles[1 : nd + 1]
     if len(angles) != model["n"] or any(f2b(a) != b for a, b in zip(angles, model["theta"])):
         return ("hard", "direction grid: model arange/slice differs from numpy")
@@ -160,6 +202,10 @@ def oracle(case, impl):
         return bad
     alpha, deg = case["alpha"], case["deg"]
     co, sample = impl["coords"], impl["sample"]
+    if not is_whole(deg):
+        # a step like 7.5 divides 360 but is not one of "the divisors of 360 between 1 and 60": the clauses are
+        # not evaluated, only the correspondence with the model is
+        return bad
     # --- the sample
     if impl["supplied_sample"] is not None:
         if sample.shape != impl["supplied_sample"].shape or not np.array_equal(sample, impl["supplied_sample"]):
@@ -175,16 +221,29 @@ def oracle(case, impl):
             bad.append(("sample_stored", f"model.draw_sample calls {[d[0] for d in dr]}; stored sample is not the drawn one"))
             return bad
     n = len(sample)
-    N = 360 // deg
+    N = n_directions(deg)
     if co.ndim != 2 or co.shape[1] != 2:
         bad.append(("coordinates_shape", str(co.shape)))
         return bad
     M = co.shape[0]
     finite = np.isfinite(co).all(axis=1)
     x, y = sample.T
-    rs = deg * np.pi / 180
+    rs = float(deg) * np.pi / 180
     scale = max(1.0, float(np.max(np.abs(co[finite]))) if finite.any() else 1.0)
-    tol = 1e-8 * scale / math.sin(rs) ** 2
+    # Honest tolerances.  A vertex is the intersection of two lines that meet at the angle `rs`: Cramer's rule
+    # loses a factor 1/sin(rs), so a vertex carries an error e_v ~ eps*scale/sin(rs) (safety factor 64).  The
+    # normal of edge 0 is estimated from the longest edge (length Lmax): its angle is off by up to 2*e_v/Lmax,
+    # which shifts an offset by up to scale*2*e_v/Lmax.  Nothing else is allowed for.
+    eps = np.finfo(float).eps
+    e_v = 64 * eps * scale / math.sin(rs)
+    dd = co - np.roll(co, 1, axis=0) if M >= 2 else np.zeros((0, 2))
+    Ls = np.where(np.isfinite(dd).all(axis=1), np.hypot(dd[:, 0], dd[:, 1]), -1.0) if M >= 2 else np.array([-1.0])
+    Lmax = float(Ls.max()) if len(Ls) else -1.0
+    dphi = 2 * e_v / Lmax if Lmax > 0 else math.inf
+    tol = 2 * e_v + scale * dphi
+    # a sample point far from the origin moves by |p|*dphi along the normal when the normal turns by dphi
+    tp = (np.abs(x) + np.abs(y)) * (dphi + 4 * eps)
+    impl["_tol"] = (tol, scale)
 
     def edge_fail(phi0, sigma, Mv):
         """list of failing edge indices (edge j joins v[j-1] and v[j], cyclic) + detail"""
@@ -198,14 +257,14 @@ def oracle(case, impl):
                 continue
             ra, rb = c * pa[0] + s * pa[1], c * pb[0] + s * pb[1]
             if abs(ra - rb) > tol:
-                fails.append((j, f"endpoints not on one line with this normal: offsets {ra!r} vs {rb!r}"))
+                fails.append((j, f"endpoints not on one line with this normal: offsets {ra!r} vs {rb!r} (tolerance {tol:.3g})"))
                 continue
             rho = 0.5 * (ra + rb)
             z = x * c + y * s
-            beyond = int((z > rho + tol).sum())
-            at_or_beyond = int((z >= rho - tol).sum())
+            beyond = int((z > rho + tol + tp).sum())
+            at_or_beyond = int((z >= rho - tol - tp).sum())
             if beyond > n * alpha + 1 or at_or_beyond < n * alpha - 1:
-                fails.append((j, f"offset {rho!r}: {beyond} of {n} strictly beyond, {at_or_beyond} at or beyond; alpha*n={alpha*n:.6g}"))
+                fails.append((j, f"offset {rho!r}: {beyond} of {n} strictly beyond, {at_or_beyond} at or beyond; alpha*n={alpha*n:.6g} (tolerance {tol:.3g})"))
         return fails
 
     # candidates for the normal of edge 0 from the longest edge
@@ -259,6 +318,8 @@ def evaluate(cases):
     for case in cases:
         impl = run_impl(case)
         rec = {"case": case, "bad": oracle(case, impl), "impl_err": impl.get("err")}
+        if "_tol" in impl:
+            rec["tol_rel"] = impl["_tol"][0] / impl["_tol"][1]
         if "err" not in impl:
             ls, mism = model_lines(case, impl["sample"])
             lines += ls
@@ -333,6 +394,18 @@ def corpus_cases():
            "alpha": 0.1, "deg": 45, "supplied": True}
     yield {"gen": "corpus", "src": "model", "model": "hs_tz_expweib", "pseed": 0, "alpha": 0.02, "deg": 10,
            "supplied": False, "n_arg": None, "sseed": 5}
+    # deg_step as the docstring types it (float), as numpy integer, left at its default; steps that divide 360
+    # without being whole numbers (correspondence only); other memory layouts / dtype of the supplied sample
+    base = {"gen": "corpus", "src": "model", "model": "hs_u_weibull2", "pseed": 1, "n": 1000, "sseed": 11, "alpha": 0.05, "supplied": True}
+    yield dict(base, deg=5, deg_type="default")
+    yield dict(base, deg=5.0, deg_type="float")
+    yield dict(base, deg=6, deg_type="np.int64", layout="F")
+    yield dict(base, deg=24.0, deg_type="np.float64", layout="strided")
+    yield dict(base, deg=7.5, deg_type="float")
+    yield dict(base, deg=22.5, deg_type="float", layout="float32")
+    yield dict(base, deg=10, src="cloud", cloud="corr_normal", layout="float32")
+    yield {"gen": "corpus", "src": "model", "model": "indep_wbl_logn", "pseed": 0, "alpha": 0.1, "deg": 5, "deg_type": "default",
+           "supplied": False, "n_arg": None, "sseed": 6}
 
 
 def random_cases(rng, count, nmax, thorough):
@@ -345,6 +418,21 @@ def random_cases(rng, count, nmax, thorough):
         while n * (360 // deg) > cap and n > 50:
             n = max(50, n // 2)
         case = {"gen": "random", "alpha": alpha, "deg": deg, "supplied": True, "sseed": int(rng.integers(0, 2**31))}
+        v = rng.uniform()
+        if v < 0.12:
+            case["deg_type"] = str(rng.choice(["float", "np.int64", "np.float64"]))  # 5.0, np.int64(5), ...
+        elif v < 0.2:
+            case["deg"] = float(rng.choice(NONINT_DIVISORS))
+            case["deg_type"] = "float"
+            while n * n_directions(case["deg"]) > cap and n > 50:
+                n = max(50, n // 2)
+        elif v < 0.26:
+            case["deg"] = DEFAULT_DEG_STEP
+            case["deg_type"] = "default"  # argument omitted
+            while n * n_directions(case["deg"]) > cap and n > 50:
+                n = max(50, n // 2)
+        if rng.uniform() < 0.2:
+            case["layout"] = str(rng.choice(["F", "strided", "float32"]))
         u = rng.uniform()
         if u < 0.45:
             case.update(src="model", model=str(rng.choice(MODEL_NAMES)), pseed=int(rng.integers(0, 6)), n=n)
@@ -361,8 +449,13 @@ def random_cases(rng, count, nmax, thorough):
                 case["n_arg"] = int(rng.choice([50, 333, 1000]))
             nn = case["n_arg"] or int(100 / case["alpha"])
             ok = [d for d in DIVISORS if nn * (360 // d) <= cap]
-            if deg not in ok:
+            case.pop("layout", None)
+            if case.get("deg_type") == "default" and nn * n_directions(DEFAULT_DEG_STEP) > cap:
+                case["deg_type"] = "int"
+            if case["deg"] not in ok and case.get("deg_type") != "default":
                 case["deg"] = int(rng.choice(ok[: max(1, len(ok) // 2)])) if ok else 60
+                if case.get("deg_type") == "float":
+                    case["deg"] = float(case["deg"])
         yield case
 
 
@@ -378,7 +471,16 @@ def register(ck, recs):
         )
         ck.case(case, nontrivial=nontrivial, sample=("sample" not in case))
         ck.count("gen=" + case["gen"])
-        ck.count("deg_step=%d" % case["deg"])
+        ck.count("deg_step=%g" % case["deg"])
+        if case.get("deg_type", "int") != "int":
+            ck.count("deg_type=" + case["deg_type"])
+        if not is_whole(case["deg"]):
+            ck.count("non_integer_step_correspondence_only")
+        if case.get("layout", "C") != "C":
+            ck.count("sample_layout=" + case["layout"])
+        if "tol_rel" in rec:
+            t = rec["tol_rel"]
+            ck.count("oracle_tolerance/scale " + ("<=1e-12" if t <= 1e-12 else "<=1e-10" if t <= 1e-10 else "<=1e-8" if t <= 1e-8 else "<=1e-6" if t <= 1e-6 else ">1e-6 (degenerate polygon)"))
         ck.count("src=" + case.get("src", "?") + (":" + case.get("cloud", case.get("model", "")) if case.get("src") != "explicit" else ""))
         ck.count("supplied" if case.get("supplied", True) else "drawn_by_contour")
         if rec.get("has_ties"):
@@ -412,7 +514,8 @@ def main(ck):
     thorough = ck.tier == "thorough"
     ck.rule = (
         "corpus witnesses (default deg_step 5 and deg_step 6 closing vertex, explicit 50-point cloud with ties, "
-        "sample drawn by the contour), then random cases: every divisor of 360 in [1,60] at least twice, "
+        "sample drawn by the contour; deg_step as float / numpy scalar / omitted (default 5), non-integer steps 7.5 and 22.5, Fortran-ordered / strided / float32 samples), "
+        "then random cases: every divisor of 360 in [1,60] at least twice (int, float, numpy scalars, default omitted; 8 non-integer exact divisors for the correspondence), "
         "alpha in [1e-4,0.3] incl. both ends, samples drawn from 4 real 2-D virocon model structures with perturbed "
         "parameters or 8 kinds of arbitrary clouds (ties, Cauchy/Pareto tails, lattices, duplicates, zeros), n from 50 to "
         + ("200000 (1e6 when drawn for alpha=1e-4)" if thorough else "20000")
@@ -426,6 +529,10 @@ def main(ck):
     ck.partial = {
         "fraction alpha beyond each edge": "theorem exceed_fraction_bounds (any ordered field) + counted on the real output for every edge",
         "drawn sample follows the model": "not part of this check (C07); only n = int(100/alpha) and identity of the stored sample are checked",
+        "number of directions at Float (hypothesis hn: the rounded arange has at least N+1 entries)": "arange_exact_count proves N+1 over exact fields; at Float it is "
+        "observed per case: the model's grid equals numpy's and the oracle demands exactly round(360/deg_step) vertices",
+        "first direction / coordinates[0]": "not fixed by the property; a half-turn shifted polygon consists of the same tangent lines, only the correspondence reports it",
+        "steps that divide 360 without being whole numbers (7.5, 22.5, ...)": "correspondence only, the oracle is not evaluated (quantifier: divisors of 360 between 1 and 60)",
     }
     q7_probe(ck, rng, 2000 if thorough else 400)
     cases = list(corpus_cases()) + list(random_cases(rng, 2500 if thorough else 150, 200000 if thorough else 20000, thorough))
